@@ -253,6 +253,10 @@ func runC03(c *core.Case) {
 				spec.Frames = append(spec.Frames, pager.FrameSpec{Pgno: 1})
 			}
 		}
+		if spec.Outcome == "commit" && c.Rng.IntN(6) == 0 {
+			spec.PadCommit = 1 + c.Rng.IntN(3) // (synchronous=FULL with psow=0)
+			c.Count("commit_frame_padded", 1)
+		}
 		restartExpected := d.Backfilled || d.WalEnd < 32
 		if spec.Outcome == "commit" && c.Rng.IntN(8) == 0 {
 			// the writer ends without unlocking: its descriptors are closed while
